@@ -8,6 +8,7 @@ use opaque_ke::ksf::Identity;
 use opaque_ke::*;
 use rand::rngs::StdRng;
 use rand::{RngCore, SeedableRng};
+use generic_array::typenum::Unsigned as _;
 use serde_json::{json, Value};
 
 macro_rules! suite {
@@ -152,14 +153,37 @@ macro_rules! gen_c03 {
             let st_bytes = sstate.serialize();
             let mut cands: Vec<Vec<u8>> = vec![other.to_vec(), vec![0u8; good.len()], vec![0xffu8; good.len()]];
             for i in 0..good.len() { for bit in 0..8 { let mut m = good.to_vec(); m[i] ^= 1 << bit; cands.push(m); } }
-            for m in cands {
+            // alterations of several bytes (same mask in two positions; complementary masks in three) and random strings
+            for i in 0..good.len().min(12) { for j in 0..i { for mask in [0x01u8, 0x80, 0xff] { let mut m = good.to_vec(); m[i] ^= mask; m[j] ^= mask; cands.push(m); } } }
+            for i in 2..good.len().min(10) { let mut m = good.to_vec(); m[i] ^= 0x0f; m[i - 1] ^= 0xf0; m[i - 2] ^= 0xff; cands.push(m); }
+            for _ in 0..1500 { let mut m = vec![0u8; good.len()]; rng.fill_bytes(&mut m); cands.push(m); }
+            for m in cands.iter() {
                 acc.tried += 1;
                 let st = ServerLogin::<$cs>::deserialize(&st_bytes)?;
-                if let Ok(msg) = CredentialFinalization::<$cs>::deserialize(&m) {
+                if let Ok(msg) = CredentialFinalization::<$cs>::deserialize(m) {
                     match st.finish(msg) {
-                        Ok(_) => acc.hit(stringify!($cs), "server accepted a non-matching finalization", json!({"genuine": hx(&good), "given": hx(&m)})),
+                        Ok(_) => acc.hit(stringify!($cs), "server accepted a non-matching finalization", json!({"genuine": hx(&good), "given": hx(m)})),
                         Err(ProtocolError::InvalidLoginError) => {}
                         Err(e) => acc.hit(stringify!($cs), "error is not InvalidLoginError", json!({"error": format!("{:?}", e)})),
+                    }
+                }
+            }
+            // the pending state saved and reloaded through serde (bincode, JSON): the genuine message is still the only one accepted
+            let st0 = ServerLogin::<$cs>::deserialize(&st_bytes)?;
+            let via_bincode = bincode::serialize(&st0).ok().and_then(|b| bincode::deserialize::<ServerLogin<$cs>>(&b).ok());
+            let via_json = serde_json::to_string(&st0).ok().and_then(|b| serde_json::from_str::<ServerLogin<$cs>>(&b).ok());
+            for (how, st) in [("bincode", via_bincode), ("json", via_json)] {
+                match st {
+                    None => acc.hit(stringify!($cs), "pending server state does not survive a serde round trip", json!({"through": how})),
+                    Some(st) => {
+                        for m in cands.iter().take(3).chain(cands.iter().skip(3).step_by(97)) {
+                            acc.tried += 1;
+                            if let Ok(msg) = CredentialFinalization::<$cs>::deserialize(m) {
+                                if st.clone().finish(msg).is_ok() { acc.hit(stringify!($cs), "serde-reloaded server state accepted a non-matching finalization", json!({"through": how, "given": hx(m)})); }
+                            }
+                        }
+                        acc.tried += 1;
+                        if st.finish(CredentialFinalization::<$cs>::deserialize(&good)?).is_err() { acc.hit(stringify!($cs), "serde-reloaded server state rejects the genuine finalization", json!({"through": how})); }
                     }
                 }
             }
@@ -193,7 +217,7 @@ macro_rules! gen_c04 {
             for i in 0..good.len() { for v in [1u8, 0x80] { let mut m = good.to_vec(); m[i] ^= v; cands.push(m); } }
             for m in cands {
                 if let Ok(resp) = CredentialResponse::<$cs>::deserialize(&m) {
-                    if resp.serialize().as_slice() == good.as_slice() { continue; }   // alias of the genuine message: C10's business
+                    if m == good.to_vec() { continue; }
                     acc.tried += 1;
                     let st = ClientLogin::<$cs>::deserialize(&cbytes)?;
                     if st.finish(p.pw, resp, ClientLoginFinishParameters::new(p.ctx, Identifiers { client: p.idu, server: p.ids }, None)).is_ok() {
@@ -231,6 +255,24 @@ macro_rules! gen_c05 {
                 let (_s, cf) = login!($cs, &mut rng, &setup, Some(file.clone()), b"pw", cred, srv, cli);
                 if cf.is_ok() != must { acc.hit(stringify!($cs), what, json!({"accepted": cf.is_ok(), "expected": must})); }
             }
+            // full matrix: identities at registration x identities at login (both login sides agree); success iff the EFFECTIVE identities are equal
+            let opts_c: [Option<&[u8]>; 3] = [None, Some(b"alice"), Some(b"carol")];
+            let opts_s: [Option<&[u8]>; 3] = [None, Some(b"bob"), Some(b"dave")];
+            for rc in opts_c { for rs in opts_s {
+                let regp = Params { pw: b"pw", cred: b"id", idu: rc, ids: rs, ctx: None };
+                let (setup_m, file_m, _e, _k) = register!($cs, &mut rng, regp);
+                for lc in opts_c { for ls in opts_s {
+                    acc.tried += 1;
+                    let lp = Params { idu: lc, ids: ls, ..regp.clone() };
+                    let (_s, cf) = login!($cs, &mut rng, &setup_m, Some(file_m.clone()), b"pw", b"id", lp, lp);
+                    let must = rc == lc && rs == ls;
+                    if cf.is_ok() != must { acc.hit(stringify!($cs), "identities at login vs identities sealed at registration", json!({"registered": [rc.map(hx), rs.map(hx)], "login": [lc.map(hx), ls.map(hx)], "accepted": cf.is_ok(), "expected": must})); }
+                } }
+                // server and client disagree at login time only
+                acc.tried += 1;
+                let (_s, cf) = login!($cs, &mut rng, &setup_m, Some(file_m.clone()), b"pw", b"id", Params { ids: Some(b"mallory"), ..regp.clone() }, regp);
+                if cf.is_ok() { acc.hit(stringify!($cs), "server used another server identity than the client; login accepted", json!({"registered": [rc.map(hx), rs.map(hx)]})); }
+            } }
             // explicit public-key spelling of the default server identity
             let reg2 = Params { pw: b"pw", cred: b"id", idu: None, ids: None, ctx: None };
             let (setup2, file2, _e, spk2) = register!($cs, &mut rng, reg2);
@@ -380,20 +422,25 @@ macro_rules! gen_c12 {
         let acc: &mut Acc = $acc;
         let big = vec![0x5au8; 131072];
         for &n in &[0usize, 1, 255, 256, 65535, 65536, 65537, 131072] {
-            acc.tried += 1;
-            let r = std::panic::catch_unwind(|| {
-                let mut rng = StdRng::seed_from_u64(12000 + n as u64);
-                let s = &big[..n];
-                let p = Params { pw: b"pw", cred: s, idu: Some(s), ids: Some(s), ctx: Some(s) };
-                let res = (|| -> Result<bool, ProtocolError> {
-                    let (setup, file, _e, _k) = register!($cs, &mut rng, p);
-                    let (st, cf) = login!($cs, &mut rng, &setup, Some(file), p.pw, p.cred, p, p);
-                    Ok(st.finish(cf?.message).is_ok())
-                })();
-                // too long => refused; otherwise => works
-                (n <= 65535) == matches!(res, Ok(true))
-            });
-            match r { Err(_) => acc.hit(stringify!($cs), "panic", json!({"len": n})), Ok(false) => acc.hit(stringify!($cs), "over-long parameter not refused / valid length refused", json!({"len": n})), _ => {} }
+            // one parameter at a time: credential identifier (any length is fine), client identity, server identity, context
+            for which in 0..4u8 {
+                acc.tried += 1;
+                let r = std::panic::catch_unwind(|| {
+                    let mut rng = StdRng::seed_from_u64(12000 + n as u64);
+                    let s = &big[..n];
+                    let p = Params { pw: b"pw", cred: if which == 0 { s } else { b"id" }, idu: if which == 1 { Some(s) } else { None }, ids: if which == 2 { Some(s) } else { None }, ctx: if which == 3 { Some(s) } else { None } };
+                    let res = (|| -> Result<bool, ProtocolError> {
+                        let (setup, file, _e, _k) = register!($cs, &mut rng, p);
+                        let (st, cf) = login!($cs, &mut rng, &setup, Some(file), p.pw, p.cred, p, p);
+                        Ok(st.finish(cf?.message).is_ok())
+                    })();
+                    // identities / context beyond 65535 bytes are refused; everything else works
+                    (which == 0 || n <= 65535) == matches!(res, Ok(true))
+                });
+                let pname = ["credential identifier", "client identity", "server identity", "context"][which as usize];
+                match r { Err(_) => acc.hit(stringify!($cs), "panic", json!({"len": n, "parameter": pname})),
+                          Ok(false) => acc.hit(stringify!($cs), "over-long parameter not refused (or a valid length refused)", json!({"len": n, "parameter": pname})), _ => {} }
+            }
             acc.tried += 1;
             let r = std::panic::catch_unwind(|| {
                 let mut rng = StdRng::seed_from_u64(12500 + n as u64);
@@ -446,6 +493,11 @@ macro_rules! gen_c13 {
                 out.extend_from_slice(&cf.message.serialize()); out.extend_from_slice(&cf.session_key); out.extend_from_slice(&cf.export_key);
                 let sf = slstate.finish(cf.message)?;
                 out.extend_from_slice(&sf.session_key);
+                // a login attempt for an unknown user against the (reloaded) setup
+                let setup = reload!(ServerSetup<$cs>, setup);
+                let cu = ClientLogin::<$cs>::start(&mut rng, b"x")?;
+                let su = ServerLogin::<$cs>::start(&mut rng, &setup, None, cu.message, b"nobody", ServerLoginStartParameters::default())?;
+                out.extend_from_slice(&su.message.serialize()); out.extend_from_slice(&su.state.serialize());
                 Ok(out)
             }));
             match r {
@@ -508,15 +560,31 @@ macro_rules! gen_c17 {
             acc.tried += 3;
             if reqs[0] == reqs[1] || reqs[1] == reqs[2] { acc.hit(stringify!($cs), "registration requests for the same password on independent tapes are identical (blind not fresh)", json!({"request": hx(&reqs[0])})); }
             if mks[0] != mks[1] || mks[1] != mks[2] { acc.hit(stringify!($cs), "masking key depends on the blinding randomness", json!({})); }
-            // another credential identifier / another server seed / another password: different masking key
+            // other credential identifiers (empty, prefixes of one another, long ones sharing a long prefix): the SAME request must be
+            // evaluated under a different key for each, at registration and at login alike
+            let long_a = vec![0x61u8; 300]; let mut long_b = long_a.clone(); long_b[299] = 0x62;
+            let creds: Vec<&[u8]> = vec![b"id", b"", b"i", b"id-other", &long_a[..64], &long_a[..65], &long_a[..128], &long_a, &long_b];
             let mut r3 = StdRng::seed_from_u64(9);
             let c = ClientRegistration::<$cs>::start(&mut r3, p.pw)?;
-            let s = ServerRegistration::<$cs>::start(&setup, c.message, b"id-other")?;
-            let u = c.state.finish(&mut r3, p.pw, s.message, ClientRegistrationFinishParameters::default())?.message.serialize().to_vec();
-            let npk = <<$cs as CipherSuite>::KeGroup as opaque_ke::key_exchange::group::KeGroup>::PkLen::to_usize();
-            let nh = (u.len() - npk - 32) / 2;
+            let cl = ClientLogin::<$cs>::start(&mut r3, p.pw)?;
+            let elen = c.message.serialize().len();
+            let mut evals: Vec<Vec<u8>> = vec![];
+            for cred in creds.iter() {
+                acc.tried += 1;
+                let s = ServerRegistration::<$cs>::start(&setup, c.message.clone(), cred)?;
+                let e1 = s.message.serialize()[..elen].to_vec();
+                let sl = ServerLogin::<$cs>::start(&mut r3, &setup, None, cl.message.clone(), cred, ServerLoginStartParameters::default())?;
+                let _ = e1.len();
+                evals.push(e1);
+                let _ = sl;
+            }
+            for i in 0..evals.len() { for j in 0..i { if evals[i] == evals[j] {
+                acc.hit(stringify!($cs), "two different credential identifiers are evaluated under the same OPRF key", json!({"a": hx(creds[j]), "b": hx(creds[i])}));
+            } } }
+            // another server (other seed): different evaluation for the same identifier
+            let setup2 = ServerSetup::<$cs>::new(&mut r3);
             acc.tried += 1;
-            if u[npk..npk + nh] == mks[0][..] { acc.hit(stringify!($cs), "OPRF key ignores the credential identifier", json!({})); }
+            if ServerRegistration::<$cs>::start(&setup2, c.message.clone(), b"id")?.message.serialize()[..elen] == evals[0][..] { acc.hit(stringify!($cs), "OPRF key ignores the server seed", json!({})); }
             Ok(())
         })();
         if let Err(e) = r { acc.hit(stringify!($cs), "setup failed", json!({"error": format!("{:?}", e)})); }
@@ -531,9 +599,16 @@ macro_rules! gen_c16 {
             let mut rng = StdRng::seed_from_u64(16000);
             let p = Params { pw, cred: b"id", idu: None, ids: None, ctx: None };
             let (setup, file, export, _k) = register!($cs, &mut rng, p);
-            let (_s2, _f2, export2, _k2) = register!($cs, &mut rng, p);
+            // re-registration of the same user (same server, same credential identifier, same password)
+            let c2 = ClientRegistration::<$cs>::start(&mut rng, pw)?;
+            let s2 = ServerRegistration::<$cs>::start(&setup, c2.message, p.cred)?;
+            let f2 = c2.state.finish(&mut rng, pw, s2.message, ClientRegistrationFinishParameters::default())?;
             acc.tried += 1;
-            if export == export2 { acc.hit(stringify!($cs), "a new registration with the same password yields the same export key", json!({})); }
+            if export == f2.export_key { acc.hit(stringify!($cs), "a new registration (same user, same password, same server) yields the same export key", json!({})); }
+            if file.serialize() == f2.message.serialize() { acc.hit(stringify!($cs), "re-registration reproduces the same password file (envelope nonce not fresh)", json!({})); }
+            // another user / another password on the same server
+            let (_s3, _f3, export3, _k3) = register!($cs, &mut rng, p);
+            if export == export3 { acc.hit(stringify!($cs), "registration on another server yields the same export key", json!({})); }
             let mut wire: Vec<u8> = file.serialize().to_vec();
             let mut secrets: Vec<Vec<u8>> = vec![pw.to_vec(), export.to_vec()];
             for (i, ctx) in [None, Some(&b"ctx-a"[..]), Some(&b"ctx-b"[..])].iter().enumerate() {
@@ -610,10 +685,165 @@ macro_rules! gen_c07 {
     }};
 }
 
+// ------------------------------------------------------------------------------------------------ C09: executable twin of the oracle
+/// The RFC 9807 / RFC 9497 formulas of verus/spec_rfc.rs, executable: primitives straight from sha2 / hkdf / hmac / voprf and the
+/// KeGroup public API.  Every output of the real crate is recomputed from the inputs and from the RECORDED tape segments and compared.
+/// This samples (a) the oracle's transcription and (b) the prelude's assumed contracts (HKDF multi-info == concatenation, HMAC verify,
+/// voprf finalize / blind_evaluate / derive_key, order and size of the tape reads).  Testing, not proof.
+pub trait HasHash { type H: digest::Digest + digest::core_api::BlockSizeUser + Clone + digest::FixedOutputReset + Default + digest::HashMarker + digest::OutputSizeUser + digest::Update; }
+struct Rec { inner: StdRng, chunks: Vec<Vec<u8>> }
+impl Rec { fn new(seed: u64) -> Self { Rec { inner: StdRng::seed_from_u64(seed), chunks: vec![] } } }
+impl RngCore for Rec {
+    fn next_u32(&mut self) -> u32 { let mut b = [0u8; 4]; self.fill_bytes(&mut b); u32::from_le_bytes(b) }
+    fn next_u64(&mut self) -> u64 { let mut b = [0u8; 8]; self.fill_bytes(&mut b); u64::from_le_bytes(b) }
+    fn fill_bytes(&mut self, dest: &mut [u8]) { self.inner.fill_bytes(dest); self.chunks.push(dest.to_vec()); }
+    fn try_fill_bytes(&mut self, dest: &mut [u8]) -> Result<(), rand::Error> { self.fill_bytes(dest); Ok(()) }
+}
+impl rand::CryptoRng for Rec {}
+fn i2osp2(n: usize) -> Vec<u8> { vec![(n >> 8) as u8, (n & 0xff) as u8] }
+fn cat(parts: &[&[u8]]) -> Vec<u8> { let mut v = vec![]; for p in parts { v.extend_from_slice(p); } v }
+
+macro_rules! gen_c09 {
+    ($cs:ident, $h:ty, $acc:expr) => {{
+        let acc: &mut Acc = $acc;
+        type H = $h;
+        type KG = <$cs as CipherSuite>::KeGroup;
+        type OC = <$cs as CipherSuite>::OprfCs;
+        use opaque_ke::key_exchange::group::KeGroup as _KG;
+        use opaque_ke::keypair::SecretKey as _SK;
+        use digest::Digest as _D;
+        use hmac::Mac as _M;
+        let nh = <H as digest::OutputSizeUser>::output_size();
+        let nsk = <KG as _KG>::SkLen::to_usize();
+        let npk = <KG as _KG>::PkLen::to_usize();
+        let expand = |prk: &[u8], info: &[u8], len: usize| -> Vec<u8> { let mut out = vec![0u8; len]; hkdf::Hkdf::<H>::from_prk(prk).unwrap().expand(info, &mut out).unwrap(); out };
+        let extract = |ikm: &[u8]| -> Vec<u8> { hkdf::Hkdf::<H>::extract(None, ikm).0.to_vec() };
+        let mac = |key: &[u8], msg: &[u8]| -> Vec<u8> { let mut m = <hmac::SimpleHmac<H> as _M>::new_from_slice(key).unwrap(); m.update(msg); m.finalize().into_bytes().to_vec() };
+        let hash = |m: &[u8]| -> Vec<u8> { <H as _D>::digest(m).to_vec() };
+        let expand_label = |secret: &[u8], label: &[u8], ctx: &[u8]| -> Vec<u8> {
+            let full = cat(&[b"OPAQUE-", label]);
+            expand(secret, &cat(&[&i2osp2(nh), &[full.len() as u8], &full, &[ctx.len() as u8], ctx]), nh)
+        };
+        let big = vec![0x42u8; 300];
+        let cases: Vec<(Params, bool)> = vec![
+            (Params { pw: b"", cred: b"", idu: None, ids: None, ctx: None }, true),
+            (Params { pw: b"CorrectHorseBatteryStaple", cred: b"1234", idu: Some(b"alice"), ids: Some(b"bob"), ctx: Some(b"OPAQUE-POC") }, true),
+            (Params { pw: b"pw", cred: &big, idu: None, ids: Some(&big), ctx: Some(&big) }, true),
+            (Params { pw: b"pw", cred: b"x", idu: Some(&big[..256]), ids: None, ctx: None }, false),   // login without a record
+        ];
+        for (ci, (p, with_record)) in cases.iter().enumerate() {
+            acc.tried += 1;
+            let mut bad = |what: &str| acc.hit(stringify!($cs), "output differs from the RFC 9807 formula", json!({"case": ci, "value": what}));
+            let r = (|| -> Result<(), ProtocolError> {
+                let mut r0 = Rec::new(9000 + ci as u64);
+                let setup = ServerSetup::<$cs>::new(&mut r0);
+                if r0.chunks.iter().map(|c| c.len()).collect::<Vec<_>>() != vec![nsk, nh, nsk] { bad("ServerSetup::new tape reads"); }
+                let oprf_seed = r0.chunks[1].clone();
+                let ssk = setup.keypair().private().clone();
+                let spk = setup.keypair().public().serialize().to_vec();
+                let fake_sk = <KG as _KG>::derive_auth_keypair::<OC>(generic_array::GenericArray::clone_from_slice(&r0.chunks[2])).map_err(|e| ProtocolError::from(e))?;
+                let fake_pk = <KG as _KG>::serialize_pk(<KG as _KG>::public_key(fake_sk)).to_vec();
+                let oprf_key = voprf::derive_key::<OC>(&expand(&oprf_seed, &cat(&[p.cred, b"OprfKey"]), <<OC as voprf::CipherSuite>::Group as voprf::Group>::ScalarLen::to_usize()), b"OPAQUE-DeriveKeyPair", voprf::Mode::Oprf)?;
+                let oprf_srv = voprf::OprfServer::<OC>::new_with_key(&<<OC as voprf::CipherSuite>::Group as voprf::Group>::serialize_scalar(oprf_key))?;
+                // ---- registration
+                let mut r1 = Rec::new(9100 + ci as u64);
+                let c = ClientRegistration::<$cs>::start(&mut r1, p.pw)?;
+                let cst = c.state.serialize();
+                let nok = <<OC as voprf::CipherSuite>::Group as voprf::Group>::ScalarLen::to_usize();
+                let oc = voprf::OprfClient::<OC>::deserialize(&cst[..nok])?;
+                let blinded = voprf::BlindedElement::<OC>::deserialize(&c.message.serialize())?;
+                let s = ServerRegistration::<$cs>::start(&setup, c.message, p.cred)?;
+                let eval = oprf_srv.blind_evaluate(&blinded);
+                if s.message.serialize().to_vec() != cat(&[&eval.serialize(), &spk]) { bad("registration response"); }
+                let mut r2 = Rec::new(9200 + ci as u64);
+                let f = c.state.finish(&mut r2, p.pw, s.message, ClientRegistrationFinishParameters::new(Identifiers { client: p.idu, server: p.ids }, None))?;
+                if r2.chunks.iter().map(|c| c.len()).collect::<Vec<_>>() != vec![32] { bad("ClientRegistration::finish tape reads"); }
+                let y = oc.finalize(p.pw, &eval)?.to_vec();
+                let rp = extract(&cat(&[&y, &y]));   // Identity KSF: Stretch(y) = y
+                let mk = expand(&rp, b"MaskingKey", nh);
+                let nonce = r2.chunks[0].clone();
+                let auth_key = expand(&rp, &cat(&[&nonce, b"AuthKey"]), nh);
+                let export_key = expand(&rp, &cat(&[&nonce, b"ExportKey"]), nh);
+                let cseed = expand(&rp, &cat(&[&nonce, b"PrivateKey"]), nsk);
+                let csk = <KG as _KG>::derive_auth_keypair::<OC>(generic_array::GenericArray::clone_from_slice(&cseed)).map_err(|e| ProtocolError::from(e))?;
+                let cpk = <KG as _KG>::serialize_pk(<KG as _KG>::public_key(csk)).to_vec();
+                let idu: Vec<u8> = p.idu.map(|x| x.to_vec()).unwrap_or(cpk.clone());
+                let ids: Vec<u8> = p.ids.map(|x| x.to_vec()).unwrap_or(spk.clone());
+                let tag = mac(&auth_key, &cat(&[&nonce, &spk, &i2osp2(ids.len()), &ids, &i2osp2(idu.len()), &idu]));
+                let upload = cat(&[&cpk, &mk, &nonce, &tag]);
+                if f.message.serialize().to_vec() != upload { bad("registration upload / password file (client key, masking key, envelope nonce, auth tag)"); }
+                if f.export_key.to_vec() != export_key { bad("export key (registration)"); }
+                let file = ServerRegistration::<$cs>::finish(f.message);
+                // ---- login
+                let mut r3 = Rec::new(9300 + ci as u64);
+                let cl = ClientLogin::<$cs>::start(&mut r3, p.pw)?;
+                let n3 = r3.chunks.len();
+                if n3 < 3 || r3.chunks[n3 - 2].len() != nsk || r3.chunks[n3 - 1].len() != 32 { bad("ClientLogin::start tape reads"); }
+                let cesk = <KG as _KG>::derive_auth_keypair::<OC>(generic_array::GenericArray::clone_from_slice(&r3.chunks[n3 - 2])).map_err(|e| ProtocolError::from(e))?;
+                let cepk = <KG as _KG>::public_key(cesk);
+                let creq = cl.message.serialize().to_vec();
+                let noe = creq.len() - 32 - npk;
+                if creq[noe..] != cat(&[&r3.chunks[n3 - 1], &<KG as _KG>::serialize_pk(cepk)])[..] { bad("credential request (client nonce, ephemeral key)"); }
+                let clst = cl.state.serialize();
+                let oc2 = voprf::OprfClient::<OC>::deserialize(&clst[..nok])?;
+                let blinded2 = voprf::BlindedElement::<OC>::deserialize(&creq[..noe])?;
+                let ctx: Vec<u8> = p.ctx.map(|x| x.to_vec()).unwrap_or_default();
+                let mut r4 = Rec::new(9400 + ci as u64);
+                let sl = ServerLogin::<$cs>::start(&mut r4, &setup, if *with_record { Some(file.clone()) } else { None }, cl.message, p.cred,
+                    ServerLoginStartParameters { context: p.ctx, identifiers: Identifiers { client: p.idu, server: p.ids } })?;
+                let want_reads = if *with_record { vec![32, nsk, 32] } else { vec![nh, 32, nsk, 32] };
+                if r4.chunks.iter().map(|c| c.len()).collect::<Vec<_>>() != want_reads { bad("ServerLogin::start tape reads"); }
+                let off = if *with_record { 0 } else { 1 };
+                let (rec_mk, rec_cpk, rec_env) = if *with_record { (mk.clone(), cpk.clone(), cat(&[&nonce, &tag])) } else { (r4.chunks[0].clone(), fake_pk.clone(), vec![0u8; 32 + nh]) };
+                let mnonce = r4.chunks[off].clone();
+                let eval2 = oprf_srv.blind_evaluate(&blinded2);
+                let pad = expand(&rec_mk, &cat(&[&mnonce, b"CredentialResponsePad"]), npk + 32 + nh);
+                let masked: Vec<u8> = pad.iter().zip(cat(&[&spk, &rec_env]).iter()).map(|(a, b)| a ^ b).collect();
+                let sesk = <KG as _KG>::derive_auth_keypair::<OC>(generic_array::GenericArray::clone_from_slice(&r4.chunks[off + 1])).map_err(|e| ProtocolError::from(e))?;
+                let sepk = <KG as _KG>::serialize_pk(<KG as _KG>::public_key(sesk)).to_vec();
+                let snonce = r4.chunks[off + 2].clone();
+                let idu_s: Vec<u8> = p.idu.map(|x| x.to_vec()).unwrap_or(rec_cpk.clone());
+                let pre = cat(&[b"OPAQUEv1-", &i2osp2(ctx.len()), &ctx, &i2osp2(idu_s.len()), &idu_s, &creq, &i2osp2(ids.len()), &ids, &eval2.serialize(), &mnonce, &masked, &snonce, &sepk]);
+                let dh1 = <KG as _KG>::diffie_hellman(cepk, sesk);
+                let dh2 = ssk.diffie_hellman(opaque_ke::keypair::PublicKey::<KG>::deserialize(&<KG as _KG>::serialize_pk(cepk)).map_err(|e| ProtocolError::from(e))?).map_err(|e| ProtocolError::from(e))?;
+                let dh3 = <KG as _KG>::diffie_hellman(<KG as _KG>::deserialize_pk(&rec_cpk).map_err(|e| ProtocolError::from(e))?, sesk);
+                let prk = extract(&cat(&[&dh1, &dh2, &dh3]));
+                let th = hash(&pre);
+                let hs = expand_label(&prk, b"HandshakeSecret", &th);
+                let skey = expand_label(&prk, b"SessionKey", &th);
+                let km2 = expand_label(&hs, b"ServerMAC", b"");
+                let km3 = expand_label(&hs, b"ClientMAC", b"");
+                let smac = mac(&km2, &th);
+                if sl.message.serialize().to_vec() != cat(&[&eval2.serialize(), &mnonce, &masked, &snonce, &sepk, &smac]) { bad("credential response (evaluation, masking nonce, masked response, server nonce, ephemeral key, server MAC)"); }
+                let th2 = hash(&cat(&[&pre, &smac]));
+                if sl.state.serialize().to_vec() != cat(&[&km3, &th2, &skey]) { bad("server pending-login state (Km3, transcript hash, session key)"); }
+                if *with_record {
+                    let cf = cl.state.finish(p.pw, sl.message, ClientLoginFinishParameters::new(p.ctx, Identifiers { client: p.idu, server: p.ids }, None))?;
+                    let y2 = oc2.finalize(p.pw, &eval2)?.to_vec();
+                    if y2 != y { bad("OPRF output differs between registration and login"); }
+                    if cf.message.serialize().to_vec() != mac(&km3, &th2) { bad("credential finalization (client MAC)"); }
+                    if cf.session_key.to_vec() != skey { bad("session key"); }
+                    if cf.export_key.to_vec() != export_key { bad("export key (login)"); }
+                }
+                Ok(())
+            })();
+            if let Err(e) = r { acc.hit(stringify!($cs), "run failed", json!({"case": ci, "error": format!("{:?}", e)})); }
+        }
+    }};
+}
+fn oracle_twin(acc: &mut Acc) {
+    use sha2::{Sha256, Sha384, Sha512};
+    gen_c09!(R_R, Sha512, acc); gen_c09!(R_P256, Sha512, acc); gen_c09!(R_P384, Sha512, acc); gen_c09!(R_P521, Sha512, acc); gen_c09!(R_X, Sha512, acc);
+    gen_c09!(P256_R, Sha256, acc); gen_c09!(P256_P256, Sha256, acc); gen_c09!(P256_P384, Sha256, acc); gen_c09!(P256_P521, Sha256, acc); gen_c09!(P256_X, Sha256, acc);
+    gen_c09!(P384_R, Sha384, acc); gen_c09!(P384_P256, Sha384, acc); gen_c09!(P384_P384, Sha384, acc); gen_c09!(P384_P521, Sha384, acc); gen_c09!(P384_X, Sha384, acc);
+    gen_c09!(P521_R, Sha512, acc); gen_c09!(P521_P256, Sha512, acc); gen_c09!(P521_P384, Sha512, acc); gen_c09!(P521_P521, Sha512, acc); gen_c09!(P521_X, Sha512, acc);
+}
+
 fn run(gen: &str) -> Value {
     let mut acc = Acc { tried: 0, found: vec![] };
     match gen {
-        "c01" | "c09" => { all_suites!(gen_c01, &mut acc); }
+        "c01" => { all_suites!(gen_c01, &mut acc); honest_with_ksf(&mut acc); }
+        "c09" => { oracle_twin(&mut acc); }
         "c14" | "c17" => { all_suites!(gen_c17, &mut acc); }
         "c16" => { all_suites!(gen_c16, &mut acc); }
         "c15" => { ksf_probe(&mut acc); }
@@ -802,6 +1032,33 @@ macro_rules! gen_c15 {
         }
     }};
 }
+/// C01 with a non-default key-stretching instance passed explicitly on both sides (and absent on both sides)
+macro_rules! gen_c01_ksf {
+    ($cs:ident, $acc:expr) => {{
+        let acc: &mut Acc = $acc;
+        let k = toyksf::Toy(0x33);
+        for (i, ksf) in [None, Some(&k)].iter().enumerate() {
+            acc.tried += 1;
+            toyksf::FAIL_AT.with(|f| f.set(0));
+            let r = (|| -> Result<(), ProtocolError> {
+                let mut rng = StdRng::seed_from_u64(1100 + i as u64);
+                let setup = ServerSetup::<$cs>::new(&mut rng);
+                let c = ClientRegistration::<$cs>::start(&mut rng, b"pw")?;
+                let s = ServerRegistration::<$cs>::start(&setup, c.message, b"id")?;
+                let f = c.state.finish(&mut rng, b"pw", s.message, ClientRegistrationFinishParameters::new(Identifiers::default(), *ksf))?;
+                let file = ServerRegistration::<$cs>::finish(f.message);
+                let cl = ClientLogin::<$cs>::start(&mut rng, b"pw")?;
+                let sl = ServerLogin::<$cs>::start(&mut rng, &setup, Some(file), cl.message, b"id", ServerLoginStartParameters::default())?;
+                let cf = cl.state.finish(b"pw", sl.message, ClientLoginFinishParameters::new(None, Identifiers::default(), *ksf))?;
+                let sf = sl.state.finish(cf.message)?;
+                if sf.session_key != cf.session_key || cf.export_key != f.export_key { acc.hit(stringify!($cs), "keys differ", json!({"explicit_ksf": ksf.is_some()})); }
+                Ok(())
+            })();
+            if let Err(e) = r { acc.hit(stringify!($cs), "honest run with the same key-stretching instance on both sides failed", json!({"explicit_ksf": ksf.is_some(), "error": format!("{:?}", e)})); }
+        }
+    }};
+}
+fn honest_with_ksf(acc: &mut Acc) { gen_c01_ksf!(K_R_R, acc); gen_c01_ksf!(K_P256_X, acc); }
 fn ksf_probe(acc: &mut Acc) { gen_c15!(K_R_R, acc); gen_c15!(K_P256_X, acc); }
 
 /// C18: an external key that fails at the n-th interface call, for every n; equivalence with the direct-key server
